@@ -1,33 +1,361 @@
 package sym
 
 import (
+	"go/types"
+	"strings"
+
 	"golang.org/x/tools/go/ssa"
 
 	"gvc/smt"
 )
 
-// Channel operations are Tier-B (ghost-event) semantics; see chanops.go once built.
+// Channel operations have ghost-event semantics (sequential view of one goroutine,
+// with an environment that may close channels and take part in rendezvous):
+//
+//	chan.closed[ch]   the channel has been closed (monotone; the environment may close
+//	                  any channel between two observations)
+//	chan.mine[ch]     the element buffered in ch was put there by this goroutine
+//	                  (the "mutex" channels of the library: cap 1, struct{})
+//	chan.lastsent[ch] the last value this goroutine sent on ch (the armed context of
+//	                  the readTimeout / writeTimeout channels)
+//
+// A receive is enabled iff closed || mine || (some sender is ready: unconstrained);
+// a send is enabled iff !mine && (room or receiver ready: unconstrained).
+
+func (e *Engine) chClosed(st *State) *smt.Term   { return e.heapArr(st, "chan.closed", smt.Bool) }
+func (e *Engine) chMine(st *State) *smt.Term     { return e.heapArr(st, "chan.mine", smt.Bool) }
+func (e *Engine) chLastSent(st *State) *smt.Term { return e.heapArr(st, "chan.lastsent", smt.BV64) }
 
 func (e *Engine) makeChan(st *State, fr *Frame, x *ssa.MakeChan) Value {
 	ch := e.freshObj(st, "chan")
 	c := e.C
-	sz := e.toInt64(e.val(fr, x.Size).(*smt.Term), x.Size.Type())
-	st.Heap["chan.cap"] = c.Store(e.heapArr(st, "chan.cap", smt.BV64), ch, sz)
-	st.Heap["chan.count"] = c.Store(e.heapArr(st, "chan.count", smt.BV64), ch, e.i64(0))
-	st.Heap["chan.closed"] = c.Store(e.heapArr(st, "chan.closed", smt.Bool), ch, c.False())
+	st.Heap["chan.closed"] = c.Store(e.chClosed(st), ch, c.False())
+	st.Heap["chan.mine"] = c.Store(e.chMine(st), ch, c.False())
 	return ch
 }
 
-func (e *Engine) send(st *State, fr *Frame, x *ssa.Send) {
-	e.fail("channel send not supported yet at %s", e.pos(x.Pos()))
+// envStep: the environment may have closed the channel since it was last observed.
+func (e *Engine) envStep(st *State, ch *smt.Term) {
+	c := e.C
+	a := e.chClosed(st)
+	now := c.Or(c.Select(a, ch), c.Fresh("env$closed", smt.Bool))
+	st.Heap["chan.closed"] = c.Store(a, ch, now)
 }
 
-func (e *Engine) recv(st *State, fr *Frame, x *ssa.UnOp, ch Value) Value {
-	e.fail("channel receive not supported yet at %s", e.pos(x.Pos()))
+// envStepAll: across a call, any channel may have been closed by the environment.
+func (e *Engine) envStepAll(st *State) {
+	c := e.C
+	a := e.chClosed(st)
+	n := c.Fresh("env$closedmap", a.Sort)
+	k := c.Bound("ch", smt.BV64)
+	st.Assume(c.Forall([]*smt.Term{k}, c.Implies(c.Select(a, k), c.Select(n, k))))
+	st.Heap["chan.closed"] = n
+}
+
+func (e *Engine) recvEnabled(st *State, ch *smt.Term, closeOnly bool) *smt.Term {
+	c := e.C
+	if closeOnly {
+		// nobody ever sends on this channel (syntactic check): a receive completes iff closed
+		return c.Select(e.chClosed(st), ch)
+	}
+	return c.Or(c.Select(e.chClosed(st), ch), c.Select(e.chMine(st), ch), c.Fresh("env$sender", smt.Bool))
+}
+
+// chanUse collects, over the library's packages, the struct fields whose channel is
+// ever closed and those ever sent on.
+func (e *Engine) chanUse() (closed, sent map[string]bool) {
+	if e.closedFields != nil {
+		return e.closedFields, e.sentFields
+	}
+	e.closedFields, e.sentFields = map[string]bool{}, map[string]bool{}
+	note := func(v ssa.Value, m map[string]bool) {
+		if f := chanField(v); f != "" {
+			m[f] = true
+		} else {
+			m["?"] = true
+		}
+	}
+	var visit func(f *ssa.Function)
+	visit = func(f *ssa.Function) {
+		for _, b := range f.Blocks {
+			for _, in := range b.Instrs {
+				switch x := in.(type) {
+				case *ssa.Send:
+					note(x.Chan, e.sentFields)
+				case *ssa.Select:
+					for _, s := range x.States {
+						if s.Dir == types.SendOnly {
+							note(s.Chan, e.sentFields)
+						}
+					}
+				case ssa.CallInstruction:
+					if bi, ok := x.Common().Value.(*ssa.Builtin); ok && bi.Name() == "close" {
+						note(x.Common().Args[0], e.closedFields)
+					}
+				}
+			}
+		}
+		for _, af := range f.AnonFuncs {
+			visit(af)
+		}
+	}
+	for path, sp := range e.SPkgs {
+		if !ourPkg(path) {
+			continue
+		}
+		for _, m := range sp.Members {
+			switch x := m.(type) {
+			case *ssa.Function:
+				if !strings.HasPrefix(x.Name(), "gvc") {
+					visit(x)
+				}
+			case *ssa.Type:
+				for _, tt := range []types.Type{x.Type(), types.NewPointer(x.Type())} {
+					ms := e.Prog.MethodSets.MethodSet(tt)
+					for i := 0; i < ms.Len(); i++ {
+						if f := e.Prog.MethodValue(ms.At(i)); f != nil && f.Pkg == sp {
+							visit(f)
+						}
+					}
+				}
+			}
+		}
+	}
+	return e.closedFields, e.sentFields
+}
+
+// chanField names the struct field a channel operand is loaded from ("" if it is not
+// a direct field load).
+func chanField(v ssa.Value) string {
+	for {
+		switch x := v.(type) {
+		case *ssa.ChangeType:
+			v = x.X
+			continue
+		case *ssa.MakeInterface:
+			v = x.X
+			continue
+		}
+		break
+	}
+	if u, ok := v.(*ssa.UnOp); ok {
+		if fa, ok := u.X.(*ssa.FieldAddr); ok {
+			sT, sName := structOf(fa.X.Type())
+			return sName + "." + sT.Field(fa.Field).Name()
+		}
+	}
+	return ""
+}
+
+// closeOnly: the channel operand provably (syntactically) is never sent on by the
+// library: a field outside the sent set, or the result of a call (ctx.Done()).
+func (e *Engine) closeOnly(v ssa.Value) bool {
+	_, sent := e.chanUse()
+	if f := chanField(v); f != "" {
+		return !sent[f]
+	}
+	for {
+		if ct, ok := v.(*ssa.ChangeType); ok {
+			v = ct.X
+			continue
+		}
+		break
+	}
+	switch v.(type) {
+	case *ssa.Call:
+		return true
+	}
+	return false
+}
+
+func (e *Engine) sendEnabled(st *State, ch *smt.Term) *smt.Term {
+	c := e.C
+	return c.And(c.Not(c.Select(e.chMine(st), ch)), c.Fresh("env$room", smt.Bool))
+}
+
+func (e *Engine) doRecv(st *State, ch *smt.Term, elem types.Type, commaOk bool, closeOnly bool) Value {
+	c := e.C
+	// a value buffered by this goroutine is consumed; on a closed channel the zero value arrives
+	closed := c.Select(e.chClosed(st), ch)
+	mine := c.Select(e.chMine(st), ch)
+	if closeOnly {
+		mine = c.False()
+	} else {
+		st.Heap["chan.mine"] = c.Store(e.chMine(st), ch, c.False())
+	}
+	var v Value
+	if s := scalarSort(elem); s != nil {
+		fresh := c.Fresh("recv", s)
+		z := e.zero(elem).(*smt.Term)
+		v = c.Ite(c.And(closed, c.Not(mine)), z, fresh)
+		if s == smt.BV64 {
+			if _, isBasic := under(elem).(*types.Basic); !isBasic {
+				e.preexisting(st, fresh)
+			}
+		}
+	} else {
+		v = e.freshOfType(st, elem, "recv")
+	}
+	if commaOk {
+		return &TupleV{V: []Value{v, c.Not(c.And(closed, c.Not(mine)))}}
+	}
+	return v
+}
+
+func (e *Engine) doSend(st *State, fr *Frame, ch *smt.Term, val Value, vt types.Type, pos string, field bool) {
+	c := e.C
+	if !field {
+		// channels that do not come from a struct field (a ping's pong channel found in
+		// the map) are not lock-like: no ownership is tracked for them
+		return
+	}
+	// send on a closed channel: excluded by the package-level syntactic check that no
+	// channel that is ever closed is ever sent on (see SyntacticChecks).
+	st.Heap["chan.mine"] = c.Store(e.chMine(st), ch, c.True())
+	if s := scalarSort(vt); s == smt.BV64 {
+		st.Heap["chan.lastsent"] = c.Store(e.chLastSent(st), ch, e.asTerm(st, val, vt))
+	}
+}
+
+func (e *Engine) send(st *State, fr *Frame, x *ssa.Send) {
+	ch := e.asTerm(st, e.val(fr, x.Chan), x.Chan.Type())
+	e.envStep(st, ch)
+	// a blocking send returns only if it was enabled
+	st.Assume(e.sendEnabled(st, ch))
+	e.doSend(st, fr, ch, e.val(fr, x.X), x.X.Type(), e.pos(x.Pos()), chanField(x.Chan) != "")
+}
+
+func (e *Engine) recv(st *State, fr *Frame, x *ssa.UnOp, chv Value) Value {
+	ch := e.asTerm(st, chv, x.X.Type())
+	e.envStep(st, ch)
+	co := e.closeOnly(x.X)
+	st.Assume(e.recvEnabled(st, ch, co))
+	elem := under(x.X.Type()).(*types.Chan).Elem()
+	return e.doRecv(st, ch, elem, x.CommaOk, co)
+}
+
+// selectOp explores every enabled case (and default when no case is enabled).
+// Result tuple: (index int, recvOk bool, r_0, ..., r_{n-1}) for receive cases.
+func (e *Engine) selectOp(st *State, fr *Frame, x *ssa.Select, k func(*State, Value)) {
+	c := e.C
+	type cs struct {
+		ch  *smt.Term
+		en  *smt.Term
+		dir types.ChanDir
+		co  bool
+		fld bool
+		val Value
+		vt  types.Type
+		el  types.Type
+	}
+	var cases []cs
+	for _, s := range x.States {
+		ch := e.asTerm(st, e.val(fr, s.Chan), s.Chan.Type())
+		e.envStep(st, ch)
+		cc := cs{ch: ch, dir: s.Dir, el: under(s.Chan.Type()).(*types.Chan).Elem(), co: e.closeOnly(s.Chan), fld: chanField(s.Chan) != ""}
+		if s.Dir == types.SendOnly {
+			cc.val = e.val(fr, s.Send)
+			cc.vt = s.Send.Type()
+		}
+		cases = append(cases, cc)
+	}
+	// a nil channel never becomes ready
+	for i := range cases {
+		notNil := c.Not(c.Eq(cases[i].ch, e.i64(0)))
+		if cases[i].dir == types.SendOnly {
+			cases[i].en = c.And(notNil, e.sendEnabled(st, cases[i].ch))
+		} else {
+			cases[i].en = c.And(notNil, e.recvEnabled(st, cases[i].ch, cases[i].co))
+		}
+	}
+	// result tuple layout
+	var recvTypes []types.Type
+	for _, cs := range cases {
+		if cs.dir == types.RecvOnly {
+			recvTypes = append(recvTypes, cs.el)
+		}
+	}
+	mkResult := func(st2 *State, idx int, recvVal Value, recvIdx int, ok *smt.Term) Value {
+		tv := &TupleV{V: []Value{e.i64(int64(idx)), ok}}
+		for j, t := range recvTypes {
+			if j == recvIdx && recvVal != nil {
+				tv.V = append(tv.V, recvVal)
+			} else {
+				tv.V = append(tv.V, e.zero(t))
+			}
+		}
+		return tv
+	}
+	p := e.pos(x.Pos())
+	ri := 0
+	for i, cs := range cases {
+		myRecv := -1
+		if cs.dir == types.RecvOnly {
+			myRecv = ri
+			ri++
+		}
+		if cs.en.IsFalse() {
+			continue
+		}
+		st2 := st.Clone()
+		st2.Branch(cs.en)
+		st2.Trace = append(st2.Trace, p+":case"+itoa(i))
+		if cs.dir == types.SendOnly {
+			e.doSend(st2, fr, cs.ch, cs.val, cs.vt, p, cs.fld)
+			k(st2, mkResult(st2, i, nil, -1, c.False()))
+		} else {
+			r := e.doRecv(st2, cs.ch, cs.el, true, cs.co).(*TupleV)
+			k(st2, mkResult(st2, i, r.V[0], myRecv, r.V[1].(*smt.Term)))
+		}
+	}
+	if !x.Blocking {
+		st2 := st.Clone()
+		for _, cs := range cases {
+			st2.Branch(c.Not(cs.en))
+		}
+		st2.Trace = append(st2.Trace, p+":default")
+		k(st2, mkResult(st2, -1, nil, -1, c.False()))
+	}
+}
+
+func itoa(i int) string {
+	if i == 0 {
+		return "0"
+	}
+	s := ""
+	neg := i < 0
+	if neg {
+		i = -i
+	}
+	for i > 0 {
+		s = string(rune('0'+i%10)) + s
+		i /= 10
+	}
+	if neg {
+		s = "-" + s
+	}
+	return s
+}
+
+// chanTermOf extracts the channel reference from a contract-level argument
+// (gvcClosed(ch any) receives the channel boxed in an interface).
+func (e *Engine) chanTermOf(st *State, v Value) *smt.Term {
+	switch x := v.(type) {
+	case *IfaceV:
+		inner := x
+		for {
+			if n, ok := inner.V.(*IfaceV); ok {
+				inner = n
+				continue
+			}
+			break
+		}
+		if t, ok := inner.V.(*smt.Term); ok {
+			return t
+		}
+	case *smt.Term:
+		return x
+	}
+	e.fail("channel argument expected, got %T", v)
 	return nil
 }
-
-func (e *Engine) selectOp(st *State, fr *Frame, x *ssa.Select, k func(*State, Value)) {
-	e.fail("select not supported yet at %s", e.pos(x.Pos()))
-}
-
